@@ -2,7 +2,7 @@
 // are recorded, then an observer program runs.  Events follow LifecycleTrace.tla.
 // stdin : ndjson jobs {id, runs:[{source, path|null, mode:"complete"|"abandon", abandon_after, resp}], gc}
 // stdout: one ndjson line per job {id, ev:[...]}
-use crate::prog::{new_interpreter, run_source};
+use crate::prog::{new_interpreter, run_source_api};
 use std::io::{BufRead, Write};
 use tsrun::{ModulePath, StepResult};
 
@@ -41,9 +41,10 @@ fn run_job(j: &serde_json::Value) -> serde_json::Value {
             }
             ev.push(serde_json::json!({"e": "end", "role": role, "mode": mode, "status": status, "steps": k, "ledger": ledger(&it), "depth": it.call_depth()}));
         } else {
-            let o = run_source(&mut it, &src, path.as_deref(), &resp, "immediate", 0, 300_000);
+            let o = run_source_api(&mut it, &src, path.as_deref(), &resp, "immediate", 0, 300_000, run["api"] == "eval");
+            let mut exports = tsrun::api::get_export_names(&it); exports.sort();
             ev.push(serde_json::json!({"e": "end", "role": role, "mode": mode, "status": o.status, "steps": o.steps, "events": o.ev, "err": o.err,
-                "ledger": ledger(&it), "depth": it.call_depth()}));
+                "ledger": ledger(&it), "depth": it.call_depth(), "exports": exports}));
         }
         it.collect();
         ev.push(serde_json::json!({"e": "collect", "live": it.gc_stats().live_objects}));
